@@ -68,6 +68,9 @@ var soupEntities = []string{
 	"&#xDFFF;", "&#x10FFFF;", "&#x110000;", "&#1114112;", "&#99999999999999999999;", "&#", "&#x", "&#;", "&#x;", "&",
 	"&;", "&a", "&zz;", "&#38;", "&#60;", "&#62;", "&#34;", "&#39;", "&#X41;", "&AMP;", "&AMP", "&ampamp;", "&amp;amp;",
 	"&#45;", "&#33;", "&#62", "&#45", "&#33",
+	// entities whose replacement is longer than their name (the unescaper has to grow
+	// its output): alone they exercise the copy-on-expand path
+	"&nLt;", "&nGt;", "&nLt;<b>", "x&nGt;</i>", "&NotEqualTilde;<a b=c>",
 }
 
 var soupHostile = []string{
